@@ -19,6 +19,10 @@ if [ -d "canaries/$PROP" ]; then
       out=$(bin/ndndcheck -prop "$PROP" -tier quick -repo "$scratch/repo" -verif "$scratch/verif" 2>&1)
       if printf '%s\n' "$out" | grep -q "^VIOLATION: .*$expect"; then
         fired=$((fired+1))
+      elif printf '%s\n' "$out" | grep -q "^UNDECIDED: .*load/type errors"; then
+        # the patch applies textually but the variant no longer type-checks (the code
+        # around it was repaired since): it cannot be analysed; skipped like a stale patch
+        total=$((total-1)); skipped="$skipped $(basename "$patch" .patch)(does-not-build)"
       else
         failed="$failed $(basename "$patch" .patch)(not-reported)"
       fi
@@ -45,6 +49,8 @@ for sd in seeded/$PROP-v*; do
     out=$(bin/ndndcheck -prop "$PROP" -tier quick -repo "$scratch/repo" -verif "$scratch/verif" 2>&1)
     if printf '%s\n' "$out" | grep -q "^VIOLATION: "; then
       fired=$((fired+1))
+    elif printf '%s\n' "$out" | grep -q "^UNDECIDED: .*load/type errors"; then
+      total=$((total-1)); skipped="$skipped seed-$(basename "$sd")(does-not-build)"
     else
       failed="$failed seed-$(basename "$sd")(not-reported)"
     fi
